@@ -571,6 +571,15 @@ func (in *Interp) prepareCall(fr *frame, call *ssa.CallCommon) (Value, []Value) 
 			sig := call.Method.Type().(*types.Signature)
 			fn = &BoundIntrinsic{name: so.name + "." + call.Method.Name(), fn: func(in *Interp, fr *frame, a []Value, _ *ssa.CallCommon) Value {
 				in.stubsUsed["stub object "+so.name+"."+call.Method.Name()]++
+				if so.name == "conf" && sig.Results().Len() == 1 {
+					rt := sig.Results().At(0).Type()
+					if _, isItf := rt.Underlying().(*types.Interface); isItf {
+						return mkStubIface("conf") // e.g. GetSectionManager
+					}
+					if n := sig.Params().Len(); n >= 1 && types.Identical(sig.Params().At(n-1).Type(), rt) && len(a) >= n {
+						return a[n-1] // Get*(..., default): nothing is configured, the default applies
+					}
+				}
 				switch sig.Results().Len() {
 				case 0:
 					return nil
